@@ -33,6 +33,33 @@ class FeatureProduction(Production):
         """The merged features of the production rules"""
         return self._features
 
+    def __eq__(self, other):
+        # Two productions with the same head and body are still different
+        # productions when their features differ
+        if isinstance(other, FeatureProduction) and \
+                self._get_features_signature() != \
+                other._get_features_signature():
+            return False
+        return super().__eq__(other)
+
+    def _get_features_signature(self):
+        """The values at all paths, shared variables being numbered in
+        order of appearance"""
+        variables = {}
+        res = []
+        for path in self._features.get_all_paths():
+            if path:
+                feature = self._features.get_feature_by_path(path)
+                value = feature.value
+                if value is None:
+                    value = ("?", variables.setdefault(id(feature),
+                                                       len(variables)))
+                res.append((tuple(path), value))
+        return res
+
+    def __hash__(self):
+        return super().__hash__()
+
     def __repr__(self):
         res = [self.head.to_text()]
         cond_head = str(self._features.get_feature_by_path(["head"]))
